@@ -146,7 +146,7 @@ fn decode(tape: &[u32]) -> Case {
         7 => Some((t.f32_in(-1.0, 1.0), f32::INFINITY)),     // one-sided: only a lower bound
         _ => Some((f32::NEG_INFINITY, f32::INFINITY)),
     };
-    let class = t.pick(5) as u8;
+    let class = t.pick(7) as u8;
     let seed = t.raw();
     Case { obj, dims, clamp, class, seed }
 }
@@ -196,6 +196,26 @@ fn inputs(case: &Case) -> (Vec<f32>, Vec<f32>) {
                     }
                 } // equal or 1 ulp apart
                 3 => ((m.below(17) as f32 - 8.0) / 4.0, (m.below(17) as f32 - 8.0) / 4.0), // dyadic, often equal
+                5 => {
+                    // zeros of either sign, subnormals and their negatives: numerically equal pairs with different bits
+                    let z = |m: &mut Mix| -> f32 {
+                        match m.below(6) {
+                            0 => 0.0,
+                            1 => -0.0,
+                            2 => f32::from_bits(1 + m.below(4) as u32),
+                            3 => -f32::from_bits(1 + m.below(4) as u32),
+                            4 => 0.25 * (m.below(5) as f32 - 2.0),
+                            _ => 0.0 * (m.below(3) as f32 - 1.0), // 0 * -1 = -0
+                        }
+                    };
+                    (z(&mut m), z(&mut m))
+                }
+                6 => {
+                    // huge but finite: squares and sums of squares approach the single-precision range
+                    // (|p - t| <= 1.8e19, so every exact term and the exact mean are representable)
+                    let e = 10f32.powi(15 + m.below(5) as i32);
+                    ((m.f32_in(-0.9, 0.9) * e).clamp(-9e18, 9e18), (m.f32_in(-0.9, 0.9) * e).clamp(-9e18, 9e18))
+                }
                 _ => (m.f32_in(-1.0, 1.0) * 10f32.powi(m.below(9) as i32 - 4), m.f32_in(-1.0, 1.0) * 10f32.powi(m.below(9) as i32 - 4)),
             };
             p.push(pv);
@@ -234,8 +254,14 @@ fn check(case: &Case, ev: &mut CaseEv) -> CheckResult {
 
     let (rl, mag, rg, zone) = ref_loss(o, &p, &t);
 
+    // RMSE is documented as sqrt(sum(..) / n): where the sum of squares itself leaves the single-precision
+    // range the documented formula has no finite single-precision value (RMSE is not in the finiteness clause)
+    let rmse_sum_overflows = o == Obj::RMSE && (0..n).map(|i| (t[i] as f64 - p[i] as f64).powi(2)).sum::<f64>() > 0.9 * f32::MAX as f64;
+    if rmse_sum_overflows {
+        ev.class("RMSE: sum of squares beyond the single-precision range (loss not compared)");
+    }
     // finiteness (statement: AE, MSE, BCE, KL for all finite in-domain inputs incl. 0 and 1)
-    if !loss.is_finite() {
+    if !loss.is_finite() && !rmse_sum_overflows {
         let msg = format!("{:?}: loss is {:?} for finite in-domain inputs (p = {:?}, t = {:?})", o, loss, &p[..n.min(6)], &t[..n.min(6)]);
         if kl_zero_target {
             return Err(Fail::known(msg, "kl_zero_target"));
@@ -243,11 +269,17 @@ fn check(case: &Case, ev: &mut CaseEv) -> CheckResult {
         fail!("{}", msg);
     }
     for (i, gi) in g.iter().enumerate() {
-        ensure!(gi.is_finite(), "{:?}: gradient component {} is {:?} (p = {:e}, t = {:e})", o, i, gi, p[i], t[i]);
+        if !gi.is_finite() {
+            let msg = format!("{:?}: gradient component {} is {:?} (p = {:e}, t = {:e})", o, i, gi, p[i], t[i]);
+            if o == Obj::RMSE && p[i] != t[i] && ((p[i] as f64 - t[i] as f64).abs() < 1e-22) {
+                return Err(Fail::known(msg, "rmse_gradient_nonfinite"));
+            }
+            fail!("{}", msg);
+        }
     }
 
     // loss against the documented formula (outside the clamping zone of the probabilities)
-    if !zone {
+    if !zone && !rmse_sum_overflows {
         let tol = 2e-5 * mag + 1e-6 * (n as f64) * if is_prob(o) { 1.0 } else { 1e-3 } + 1e-30;
         let err = (loss as f64 - rl).abs();
         ev.ratio("loss", err / tol);
@@ -341,7 +373,7 @@ impl Prop for C06 {
         t.pick(1_000_000, 100_000_000)
     }
     fn rule(&self) -> String {
-        "tape-decoded (objective of 7, clamp in {none, [-1,1], lo=hi, positive interval excluding 0, negative interval excluding 0, wide, (-inf, x], [x, +inf), (-inf, +inf)}, rank: vector 1..16 (1/6: 17..130) or c x h x w <= 3x3x3 (1/6: up to 4x6x6), content class: interior / one-hot targets / boundaries (exact 0, 1, eps, 1-eps, eps +- 2 ulp, denormals, 1e-7 multiples) / p == t / mixed for the probability objectives; O(1), |v| <= 1e4, equal-or-1-ulp-apart, dyadic, mixed magnitudes for the regression objectives). Oracle: documented formulas in f64, finiteness, numerical derivative of the reference loss (AE, MSE, BCE, KL), 3-D == flat bitwise, clamped == clamp(unclamped) bitwise. Non-trivial: >= 2 elements and (a boundary/equal element, or a clamp active on some and inactive on other components, or rank 3). Distinct = (objective, shape, clamp bits, content class, boundary flag, seed mod 64).".into()
+        "tape-decoded (objective of 7, clamp in {none, [-1,1], lo=hi, positive interval excluding 0, negative interval excluding 0, wide, (-inf, x], [x, +inf), (-inf, +inf)}, rank: vector 1..16 (1/6: 17..130) or c x h x w <= 3x3x3 (1/6: up to 4x6x6), content class: interior / one-hot targets / boundaries (exact 0, 1, eps, 1-eps, eps +- 2 ulp, denormals, 1e-7 multiples) / p == t / mixed for the probability objectives; O(1), |v| <= 1e4, equal-or-1-ulp-apart, dyadic, mixed magnitudes, zeros of either sign and subnormals (numerically equal pairs with different bits), magnitudes 1e15 ... 9e18 (squares near the top of the range) for the regression objectives). Oracle: documented formulas in f64, finiteness, numerical derivative of the reference loss (AE, MSE, BCE, KL), 3-D == flat bitwise, clamped == clamp(unclamped) bitwise. Non-trivial: >= 2 elements and (a boundary/equal element, or a clamp active on some and inactive on other components, or rank 3). Distinct = (objective, shape, clamp bits, content class, boundary flag, seed mod 64).".into()
     }
     fn assumptions(&self) -> Vec<String> {
         vec![
